@@ -244,6 +244,7 @@ def prepare(tier, seed):
             by_id = {c['id']: c for c in cases}
             diffs = []
             all_diffs = diffs
+            notes = {}
             regions = {}
             streams = {}
             verdicts = {}
@@ -257,16 +258,41 @@ def prepare(tier, seed):
                     regions[k] = regions.get(k, 0) + v
                 if r['ntokens'] > 0:
                     nontrivial.add(by_id[r['id']]['text'])
+                for nt in r.get('notes', []):
+                    notes[nt] = notes.get(nt, 0) + 1
                 if r['status'] != 'same':
                     c = by_id[r['id']]
                     diffs.append({'id': r['id'], 'stream': r['stream'], 'feature': bool(r['feature']), 'kind': r['kind'],
                                   'region': r['region'], 'at': r['line'], 'model': r['model'], 'impl': r['impl'], 'fe_parts': r.get('fe_parts'),
                                   'text': c['text'], 'prefix': D.to_prefix(c['def']), 'verdict': r['verdict'], 'model_verdict': r['model_verdict']})
+            # is a mismatch name-dependent? (it disappears on the consistently renamed, neutral twin) -> C18
+            try:
+                import t3 as _t3
+                groups = {}
+                for dd in sorted(diffs, key=lambda x: len(x['text'])):
+                    if dd['verdict'] == 'ok' and dd['model_verdict'] == 'ok':
+                        g = groups.setdefault((dd['kind'], dd['region'], dd['stream']), [])
+                        if len(g) < 3:
+                            g.append(dd)
+                cand = [dd for g in groups.values() for dd in g][:60]
+                twins = []
+                for dd in cand:
+                    td, _ = _t3.rename_def(by_id[dd['id']]['def'], neutral=True)
+                    twins.append({'id': 'tw:' + dd['id'], 'stream': 'twin', 'feature': dd['feature'], 'def': td})
+                if twins:
+                    res2 = {r2['id']: r2 for r2 in t12.compare(twins, WORK)}
+                    for dd in cand:
+                        r2 = res2.get('tw:' + dd['id'])
+                        dd['name_dependent'] = bool(r2) and r2['status'] == 'same' and r2['verdict'] == 'ok'
+                    diffs.sort(key=lambda x: not x.get('name_dependent', False))
+            except Exception:
+                import traceback
+                prep['errors'].append('name-dependence probe failed: ' + traceback.format_exc()[-1500:])
             samples = []
             for r in res[:: max(1, len(res) // 6)][:6]:
                 samples.append({'id': r['id'], 'verdict': r['verdict'], 'tokens': r['ntokens'], 'text': by_id[r['id']]['text'][:600]})
             prep['t12'] = {'cases': len(res), 'tokens_compared': ntok, 'streams': streams, 'verdicts': verdicts,
-                           'regions': regions, 'diffs': diffs[:200], 'ndiffs': len(diffs),
+                           'regions': regions, 'diffs': diffs[:200], 'ndiffs': len(diffs), 'harmless_differences_noted': notes,
                            'distinct_expanded': len(nontrivial), 'samples': samples}
         prep['t3'] = None
         # escalation: definitions whose expansion differs from the model's are handed to the runtime
@@ -395,7 +421,8 @@ def run_check(pid, tier):
         violations.append(({'property': pid, 'broken': 'tie', 'tie': 'smx build', 'detail': prep['errors']}, False))
     elif tie is not None:
         rel = [d for d in tie['diffs'] if (d['region'] in cfg['regions'] and d['kind'] == 'T2') or
-               (d['kind'] == 'T1' and 'FE' in cfg['regions'] + ['FE'] and fe_relevant(pid, d))]
+               (d['kind'] == 'T1' and 'FE' in cfg['regions'] + ['FE'] and fe_relevant(pid, d)) or
+               (pid == 'C18' and d.get('name_dependent'))]
         if rel:
             rel.sort(key=lambda d: len(d['text']))
             d = rel[0]
@@ -529,6 +556,8 @@ def run_check(pid, tier):
             'tokens_in_consumed_regions': {r: (tie or {}).get('regions', {}).get(r, 0) for r in cfg['regions']},
             'mismatches_total': (tie or {}).get('ndiffs', 0),
             'mismatches_in_consumed_regions': len(rel),
+            'harmless_differences_noted': (tie or {}).get('harmless_differences_noted', {}),
+            'suspect_definitions_escalated_to_runtime': (tie or {}).get('suspects', 0),
         },
         'runtime': ({
             'machines_compiled': t3r['machines'], 'scenarios': t3r['scenarios'], 'operations': t3r['ops'],
